@@ -78,6 +78,23 @@ let handle (line : string) : string =
                               let sn = hx (nx ()) in let ro = hx (nx ()) in let off = z_of_dec (nx ()) in
                               { M.hm_data = d; hm_sig = s; hm_rcpt = r; hm_event = e; hm_sender = sn; hm_round = ro; hm_offset = off }) in
     "rehash " ^ hex_of_bytes (M.reinit_hash { M.hf_id = id; hf_threshold = thr; hf_parts = parts; hf_msgs = msgs })
+  | "c04shape" :: ty :: n :: t :: nm :: e :: _ ->
+    let nat s = M.N.to_nat (n_of_int (int_of_string s)) in
+    let o = match ty with
+      | "state_dkg_commits_await_confirmations" -> M.OCommits
+      | "state_dkg_deals_await_confirmations" -> M.ODeals
+      | "state_dkg_responses_await_confirmations" -> M.OResponses
+      | "state_dkg_master_key_await_confirmations" -> M.OMasterKey
+      | "state_signing_await_partial_signs" -> M.OSigning
+      | _ -> M.OReinit in
+    "c04shape " ^ Fsm_io.string_of_coq (M.result_line (M.result_of o (nat n) (nat t) (nat "0") (nat nm) (e = "1")))
+  | "c04lock" :: _ -> "c04lock waits=" ^ (if M.tick_waits_during_command then "true" else "false")
+  | "c04rounds" :: t1 :: m1 :: t2 :: m2 :: _ ->
+    let nat s = M.N.to_nat (n_of_int (int_of_string s)) in
+    let ms s = List.map nat (String.split_on_char ',' s) in
+    let c1 = { M.rc_id = nat "1"; rc_t = nat t1; rc_machines = ms m1 } and c2 = { M.rc_id = nat "2"; rc_t = nat t2; rc_machines = ms m2 } in
+    let bits l = String.concat "" (List.map (fun b -> if b then "1" else "0") l) in
+    "c04rounds coeffs=" ^ bits (M.coeffs_coincide c1 c2) ^ " group=" ^ bits [M.group_coincides c1 c2] ^ " shares=" ^ bits (M.shares_coincide c1 c2)
   | "air" :: rest ->
     (* air <kind|R>... : kinds 1..4 DKG steps, 9 signing, R = stop, reopen, replay *)
     (* only the log length at a stop is observable on the implementation: other positions print "-" *)
